@@ -9,7 +9,7 @@ from props import c18
 def run(res, args):
     res.rule = ("the real appcore.HandleMessagesUntilEOF (file handler -> RTCM handler -> fan-out) under the race detector with a "
                 "scripted reader (chunkings from 1 byte to whole stream, last bytes delivered with EOF, silences of 0.7 s after a stray byte / inside text / inside a frame), 1-4 sinks of capacity 0/1/8 with fast and slow "
-                "consumers and nil entries (also in front of live ones), GOMAXPROCS 1/2/4/16, the same AppCore used for one source or for two in a row (the caller then closes its channels); every non-nil sink must receive exactly the (type, raw) "
+                "consumers, consumers that stay away for 2.5 s, nil entries (also in front of live ones), GOMAXPROCS 1/2/4/16, the same AppCore used for one source or for two in a row (the caller then closes its channels); every non-nil sink must receive exactly the (type, raw) "
                 "sequence of sequential framing; the call must return 0, no goroutine may be left, no double close, no data race; "
                 "non-trivial = at least two messages and two sinks")
     res.assumptions = ["data-race freedom is the race detector's verdict on the sampled schedules, not a theorem",
@@ -79,6 +79,12 @@ def run(res, args):
         script = "d:%s;sleep:700;d:%s" % (parts[0].hex(), parts[1].hex())
         res.count("silence of 0.7 s " + ["after one stray byte", "inside text", "inside a frame"][kind])
         items.append((s, "pipeline %s %s %d 0" % (script, rng.choice(["0", "8", "1,0s", "8,nil,1"]), rng.choice([1, 4]))))
+    # a consumer that stays away from its channel for 2.5 s (a writer stuck in a slow Write): the fan-out must wait
+    for k in range(2 if res.tier == "quick" else 8):
+        fr = [gen.rand_frame(rng, small=True) for _ in range(rng.randint(3, 5))]
+        s = b"$GP,1*00\r\n".join(fr)
+        res.count("a consumer that stays away for 2.5 s after its first message")
+        items.append((s, "pipeline d:%s %s %d 0" % (s.hex(), ["0S,0", "1,0S,8"][k % 2], rng.choice([1, 4]))))
     cases = [c for _, c in items]
     exp_lines, e0 = common.run_lines(common.MODEL_BIN, "stream", ["stream %d debug %s" % (framing.T0, gen.hx(s)) for s, _ in items])
     iml, e1 = common.run_lines(common.IMPL_BIN, "stream", ["stream %d debug %s" % (framing.T0, gen.hx(s)) for s, _ in items])
